@@ -259,7 +259,7 @@ func rulesC02(c *Ctx) {
 			d := c.P.Describe(s.Instr)
 			m, _ := c.V.IsLNCall(d)
 			idx := c.V.PayMeths[m]
-			o := c.P.OriginsOf(s.Instr.Parent())
+			o := c.CtxOf(s.Instr)
 			lim := o.Of(d.Args[idx])
 			okLim := false
 			switch {
